@@ -200,7 +200,12 @@ func ExtractSerializedContainer(data []byte) (int, []byte, error) {
 	_, err := validateSerializedContainer(data)
 	if err == nil {
 		length := binary.LittleEndian.Uint64(data[len(TagBegin) : len(TagBegin)+SerializedContainerLengthSize])
-		return int(length), data, nil
+		// the declared length must cover the header together with a non-empty payload and fit into the data,
+		// otherwise callers that skip "length" bytes would move backwards, stand still or run out of the buffer
+		if length <= uint64(SerializedContainerMinSize) || length > uint64(len(data)) {
+			return 0, nil, ErrIncorrectSerializedContainer
+		}
+		return int(length), data[:length], nil
 	}
 
 	//trying to match whole block to internal container AcraStruct or AcraBlock
